@@ -129,11 +129,18 @@ Definition is_empty_arm (a : pat * option expr * expr) : bool :=
   | _ => false
   end.
 
+(* the arm leaves at once: nothing but a log line before the `return` (in particular it does not wait
+   on the event channel for the source to hang up first) *)
 Definition is_disconnected_exit_arm (a : pat * option expr * expr) : bool :=
   match a with
   | (PTupleStruct ["Err"] [PPath p], None, body) =>
       String.eqb (last p "") "Disconnected" &&
-      existsb (fun x => match x with EReturn None => true | _ => false end) (subexprs depth_fuel body)
+      match body with
+      | EBlock [ESemi (EMacro _ _); ESemi (EReturn None)] => true
+      | EBlock [ESemi (EReturn None)] => true
+      | EReturn None => true
+      | _ => false
+      end
   | _ => false
   end.
 
